@@ -288,7 +288,27 @@ func c02Setter(c *hx.Ctx, r *hx.RNG, l hx.Limits) {
 		what, cls, pEff = fmt.Sprintf("SetMantExp(%s prec=%d, %d)", v.Full(), mant.Prec(), e), "SetMantExp", int64(mant.Prec())
 	default: // base-10 literals through Parse / SetString / UnmarshalText
 		lit := genLiteral10(r, l)
+		if r.Chance(15) && !strings.ContainsAny(lit.text, "eE") {
+			// a decimal mantissa scaled by a small power of two (Parse reports base 10): the value is the exact decimal
+			// digits x 2^k, and it is rounded once like any other literal
+			k := r.Range(1, 60)
+			cf, _ := new(big.Int).SetString(lit.digits, 10)
+			suffix := fmt.Sprintf("p%d", k)
+			if r.Bool() {
+				suffix = fmt.Sprintf("p-%d", k)
+				cf.Mul(cf, new(big.Int).Exp(big.NewInt(5), big.NewInt(int64(k)), nil))
+				lit.exp -= int64(k)
+			} else {
+				cf.Lsh(cf, uint(k))
+			}
+			lit.digits = cf.String()
+			lit.text += suffix
+			lit.under += suffix
+		}
 		p := setterPrec(r, len(lit.digits))
+		if p > 1<<20 && strings.ContainsAny(lit.text, "pP") {
+			p = int64(r.Range(1, 45)) // (a binary exponent is applied by a multiplication or division at the receiver's precision)
+		}
 		z := usedRecv(r, p, mode)
 		via := r.Intn(4)
 		var err error
